@@ -1,6 +1,7 @@
 package refactor
 
 import (
+	"slices"
 	"strings"
 
 	"github.com/nyaruka/goflow/excellent"
@@ -8,28 +9,90 @@ import (
 
 // ContextRefRename returns a transformation function that renames context references
 func ContextRefRename(from, to string) func(excellent.Expression) bool {
+	// the names which the replacement itself refers to, e.g. webhook for webhook.json
+	var toNames []string
+	if parsed, err := excellent.Parse(to, nil); err == nil {
+		parsed.Visit(func(e excellent.Expression) {
+			if ref, ok := e.(*excellent.ContextReference); ok && !slices.Contains(toNames, strings.ToLower(ref.Name)) {
+				toNames = append(toNames, strings.ToLower(ref.Name))
+			}
+		})
+	} else {
+		toNames = []string{strings.ToLower(to)}
+	}
+
 	return func(exp excellent.Expression) bool {
-		// references inside an anonymous function which has a parameter of that name refer to the parameter,
-		// not to the context, so they are left alone
-		bound := make(map[*excellent.ContextReference]bool)
+		var funcs []*excellent.AnonFunction
+		used := make(map[string]bool)
 		exp.Visit(func(e excellent.Expression) {
-			if fn, ok := e.(*excellent.AnonFunction); ok {
-				for _, arg := range fn.Args {
-					if sameName(arg, from) {
-						fn.Body.Visit(func(b excellent.Expression) {
-							if ref, ok := b.(*excellent.ContextReference); ok {
-								bound[ref] = true
-							}
-						})
-					}
+			switch typed := e.(type) {
+			case *excellent.AnonFunction:
+				funcs = append(funcs, typed)
+				for _, arg := range typed.Args {
+					used[strings.ToLower(arg)] = true
 				}
+			case *excellent.ContextReference:
+				used[strings.ToLower(typed.Name)] = true
 			}
 		})
 
+		// references inside an anonymous function which has a parameter of that name refer to the parameter,
+		// not to the context, so they are left alone
+		bound := make(map[*excellent.ContextReference]bool)
+		for _, fn := range funcs {
+			if hasArg(fn, from) {
+				fn.Body.Visit(func(b excellent.Expression) {
+					if ref, ok := b.(*excellent.ContextReference); ok {
+						bound[ref] = true
+					}
+				})
+			}
+		}
+
+		isRenamed := func(e excellent.Expression) bool {
+			ref, ok := e.(*excellent.ContextReference)
+			return ok && !bound[ref] && sameName(ref.Name, from)
+		}
+
+		// a renamed reference inside an anonymous function which has a parameter with a name that the replacement
+		// uses would now refer to that parameter, so such parameters are given a name that nothing else uses
+		for _, name := range toNames {
+			captures := false
+			for _, fn := range funcs {
+				if hasArg(fn, name) {
+					fn.Body.Visit(func(b excellent.Expression) { captures = captures || isRenamed(b) })
+				}
+			}
+			if !captures {
+				continue
+			}
+
+			fresh := name + "_"
+			for used[fresh] || slices.Contains(toNames, fresh) {
+				fresh += "_"
+			}
+			used[fresh] = true
+
+			for _, fn := range funcs {
+				if hasArg(fn, name) {
+					for i := range fn.Args {
+						if sameName(fn.Args[i], name) {
+							fn.Args[i] = fresh
+						}
+					}
+					fn.Body.Visit(func(b excellent.Expression) {
+						if ref, ok := b.(*excellent.ContextReference); ok && sameName(ref.Name, name) {
+							ref.Name = fresh
+						}
+					})
+				}
+			}
+		}
+
 		changed := false
 		exp.Visit(func(e excellent.Expression) {
-			if ref, ok := e.(*excellent.ContextReference); ok && !bound[ref] && sameName(ref.Name, from) {
-				ref.Name = to
+			if isRenamed(e) {
+				e.(*excellent.ContextReference).Name = to
 				changed = true
 			}
 		})
@@ -41,4 +104,13 @@ func ContextRefRename(from, to string) func(excellent.Expression) bool {
 // by strings.EqualFold which also holds for e.g. "reſults" and "results"
 func sameName(n1, n2 string) bool {
 	return strings.ToLower(n1) == strings.ToLower(n2)
+}
+
+func hasArg(fn *excellent.AnonFunction, name string) bool {
+	for _, arg := range fn.Args {
+		if sameName(arg, name) {
+			return true
+		}
+	}
+	return false
 }
